@@ -12,5 +12,8 @@ rc, out = build_coq()
 if rc != 0:
     print(out[-4000:]); sys.exit(1)
 build_driver(); build_shim(); build_tuc(); build_harness()
+import tie
+r = tie.tie_check()
+print("translation tie:", {k: v["status"] for k, v in r.items()})
 print("setup ok")
 PY
